@@ -97,6 +97,8 @@ class Context:
         return r != z3.unsat
 
     def fork(self, cond):
+        if getattr(self, 'no_fork', False):
+            raise Unsupported('fork while merging an if statement')
         k = len(self.decisions)
         if k < len(self.prefix):
             val = self.prefix[k]
